@@ -348,8 +348,17 @@ def h_epilogue(H):
     def body2(it):
         fs_, conv, ap, napch = mk_conv(it)
         conv.attrs["already_processed"] = True
-        r = run_function(it, neuropixel.NP2Converter._process_NP24, [conv], {"overwrite": False})
-        it.ctx.oblige("already_split.returns_0_untouched", z3.BoolVal(r == 0 and not fs_.log), "post")
+        prepared = []
+
+        def prep0(it_, a, k):
+            prepared.append(dict(k))          # _prepare_files_NP24 creates folders and opens files for writing (harness prepare_files_NP24): any call is a change on disk
+            a[0].attrs["already_exists"] = False
+            return {}
+        it.session.contracts[neuropixel.NP2Converter._prepare_files_NP24] = prep0
+        for ow in (False, True):
+            r = run_function(it, neuropixel.NP2Converter._process_NP24, [conv], {"overwrite": ow})
+            it.ctx.oblige(f"already_split.returns_0_untouched.ow{ow}", z3.BoolVal(r == 0 and not fs_.log and not prepared), "post",
+                          "an input that is itself the output of an earlier split is refused before any output folder or file is prepared, with or without overwrite")
         conv.attrs["already_processed"] = False
 
         def prep(it_, a, k):
@@ -601,7 +610,7 @@ def native_failed_check_then_delete(*_a):
 
 @bounded(PROPERTY, "native_histories", bound="real files (3000 samples, window 1200): NP2.4 x option triples {post_check, compress, delete_original} sampled (quick 4, thorough all 8) x histories "
          "[run], [run, run], [run, run(overwrite)], [fresh run(overwrite)], [run interrupted during compression, run(overwrite)], [run with a corrupted shank file + delete_original], [failed verification, then delete_NP24() on the same object]; NP2.1 x {run, run run, run(overwrite)}; "
-         "NP1 and an already split shank",
+         "NP1; the converter pointed at an already split shank (both overwrite values); a 3007-sample recording with post_check + delete_original",
          clause="original recoverable after every history; repeated run is a no-op reporting 0; forced re-run ends with a complete set")
 def b_native(B):
     import itertools
@@ -705,6 +714,46 @@ def b_native(B):
         B.case("partial_folders_original_intact", open(ap, "rb").read() == orig, detail="original changed")
     finally:
         shutil.rmtree(d, ignore_errors=True)
+    # the converter pointed at a shank file written by an earlier split: refused, and nothing appears on disk (with or without overwrite)
+    d, ap, orig = _mk("NP2.4")
+    try:
+        conv = neuropixel.NP2Converter(ap, post_check=False, compress=False, delete_original=False)
+        conv.init_params(nwindow=1200)
+        conv.process()
+        shank_ap = str(conv.shank_info["shank1"]["ap_file"])
+        conv.sr.close()
+        before = _tree(d)
+        rets = []
+        for ow in (False, True):
+            c2 = neuropixel.NP2Converter(shank_ap, compress=False)
+            c2.init_params(nwindow=1200)
+            rets.append(c2.process(overwrite=ow))
+            c2.sr.close()
+            for inf in (getattr(c2, "shank_info", None) or {}).values():
+                for kk in ("ap_open_file", "lf_open_file"):
+                    if kk in inf:
+                        inf[kk].close()
+        after = _tree(d)
+        B.case("already_split_shank_untouched", rets == [0, 0] and after == before, detail={"returned": rets, "created": sorted(set(after) - set(before))[:6], "changed": sorted(k for k in before if after.get(k) != before[k])[:6]},
+               inputs={"kind": "already_split"})
+    finally:
+        shutil.rmtree(d, ignore_errors=True)
+    # a recording whose length is not a multiple of the LF decimation (nor of anything else convenient): verified and deleted only if the shank files hold every sample
+    d, ap, orig = _mk("NP2.4", ns=3007)
+    try:
+        conv = neuropixel.NP2Converter(ap, post_check=True, compress=False, delete_original=True)
+        conv.init_params(nwindow=1200)
+        r = conv.process()
+        full = True
+        lens = {}
+        for sh, inf in conv.shank_info.items():
+            a = np.fromfile(inf["ap_file"], dtype=np.int16)
+            lens[sh] = a.size // len(inf["chns"])
+            D = np.frombuffer(orig, dtype=np.int16).reshape(3007, 385)
+            full = full and a.size == 3007 * len(inf["chns"]) and np.array_equal(a.reshape(3007, -1), D[:, inf["chns"]])
+        B.case("odd_length_deleted_only_when_complete", r == 1 and (full or os.path.exists(ap)), detail={"returned": r, "samples_per_shank_file": lens, "original_exists": os.path.exists(ap)}, inputs={"kind": "odd_length"})
+    finally:
+        shutil.rmtree(d, ignore_errors=True)
     for kind in ("NP2.1", "NP1"):
         for hist in (["run"], ["run", "run"], ["run", "ow"]):
             d, ap, orig = _mk(kind)
@@ -737,5 +786,5 @@ def b_native(B):
 from pyvc.api import depends  # noqa: E402
 depends(PROPERTY, "C17", ["firstlast"])      # check_NP24 iterates the window generator under its contract
 depends(PROPERTY, "C11", ["open_int16"])      # "verified bit-identical": the reader exposes every complete frame of the original, so that the split and its verification cover them all
-depends(PROPERTY, "C03", ["metadata_split_and_restore"])      # a forced re-run ends with valid per-shank metadata: written from a deep copy, the reader's own metadata untouched
+depends(PROPERTY, "C03", ["metadata_split_and_restore", "init_params"])      # a forced re-run ends with valid per-shank metadata: written from a deep copy, the reader's own metadata untouched
 depends(PROPERTY, "C12", ["lf_metadata"])
